@@ -181,4 +181,61 @@ theorem slice_popAllN_is_pops (cmp : Int → Int → Bool) : ∀ (k : Nat) (s : 
         rw [← ih' s1]
         cases Slice.popAllK cmp k s1 <;> simp
 
+/-! ### `PopAll` with a loop body -/
+
+/-- a list of calls, each doing what `SPost` says, `Values` heap-ordered after each -/
+def SRunOK (cmp : Int → Int → Bool) : List Int → List SOp → List SRet → List Int → Prop
+  | s, [], rs, s' => rs = [] ∧ s' = s
+  | s, o :: os, rs, s' => ∃ r rs' s1, rs = r :: rs' ∧ SPost cmp s o r s1 ∧ Heap cmp s1 ∧
+      SRunOK cmp s1 os rs' s'
+
+/-- The explicit loop `for len > 0 { x := Pop(); body(i, x); if i+1 == k { break } }` in terms of
+the multiset: each yielded `x` is preceded by no element of `Values` at its turn (after the EARLIER
+bodies), and the body of its iteration runs on `Values` without `x`. -/
+def SBodyLoopOK (cmp : Int → Int → Bool) (body : Nat → List SOp) (k : Nat) :
+    Nat → Nat → List Int → List Int → List SRet → Bool → List Int → Prop
+  | 0, _, s, xs, rs, d, s' => xs = [] ∧ rs = [] ∧ d = false ∧ s' = s
+  | f + 1, i, s, xs, rs, d, s' =>
+    (s = [] ∧ xs = [] ∧ rs = [] ∧ d = true ∧ s' = []) ∨
+    ∃ x xs' rs1 rs2 s1 s2, xs = x :: xs' ∧ rs = rs1 ++ rs2 ∧ (x :: s1).Perm s ∧
+      (∀ y, y ∈ s → cmp y x = false) ∧ Heap cmp s1 ∧ SRunOK cmp s1 (body i) rs1 s2 ∧
+      (if i + 1 = k then xs' = [] ∧ rs2 = [] ∧ d = true ∧ s' = s2
+       else SBodyLoopOK cmp body k f (i + 1) s2 xs' rs2 d s')
+
+theorem runSR_ok {cmp} (hs : SWO cmp) : ∀ (ops : List SOp) (s : List Int), Heap cmp s →
+    (∀ o, o ∈ ops → ∀ s', sPre s' o) →
+    ∃ s' rs, runSR cmp s ops = some (s', rs) ∧ SRunOK cmp s ops rs s' ∧ Heap cmp s' := by
+  intro ops
+  induction ops with
+  | nil => intro s h _; exact ⟨s, [], rfl, ⟨rfl, rfl⟩, h⟩
+  | cons o os ih =>
+    intro s h hp
+    obtain ⟨s1, r, h1, h2, h3⟩ := slice_step hs s h o (hp o List.mem_cons_self s)
+    obtain ⟨s2, rs, hrun, hok, hheap⟩ := ih s1 h2 (fun o' ho' => hp o' (List.mem_cons_of_mem _ ho'))
+    exact ⟨s2, r :: rs, by simp [runSR, h1, hrun], ⟨r, rs, s1, rfl, h3, h2, hok⟩, hheap⟩
+
+/-- `Slice.PopAll` with a loop body (pop, then yield, as coded) = the explicit loop; no panic;
+`Values` heap-ordered at the end. -/
+theorem slice_body_loop {cmp} (hs : SWO cmp) (body : Nat → List SOp) (k : Nat)
+    (hb : ∀ i o, o ∈ body i → ∀ s', sPre s' o) :
+    ∀ (f i : Nat) (s : List Int), Heap cmp s →
+    ∃ s' xs rs d, Slice.popAllBody cmp body k f i s = some (s', xs, rs, d) ∧
+      SBodyLoopOK cmp body k f i s xs rs d s' ∧ Heap cmp s' := by
+  intro f
+  induction f with
+  | zero => intro i s h; exact ⟨s, [], [], false, rfl, ⟨rfl, rfl, rfl, rfl⟩, h⟩
+  | succ f ih =>
+    intro i s h
+    by_cases h0 : s = []
+    · subst h0
+      exact ⟨[], [], [], true, by simp [Slice.popAllBody, Slice.pop], Or.inl ⟨rfl, rfl, rfl, rfl, rfl⟩, h⟩
+    · obtain ⟨s1, x, hpop, hheap1, hperm1, hmin⟩ := (slice_pop hs s h).2 h0
+      obtain ⟨s2, rs1, hrun1, hok1, hheap2⟩ := runSR_ok hs (body i) s1 hheap1 (hb i)
+      by_cases hk : i + 1 = k
+      · refine ⟨s2, [x], rs1, true, by simp [Slice.popAllBody, hpop, hrun1, hk], Or.inr ?_, hheap2⟩
+        exact ⟨x, [], rs1, [], s1, s2, rfl, by simp, hperm1, hmin, hheap1, hok1, by simp [hk]⟩
+      · obtain ⟨s3, xs, rs2, d, hrun3, hok3, hheap3⟩ := ih (i + 1) s2 hheap2
+        refine ⟨s3, x :: xs, rs1 ++ rs2, d, by simp [Slice.popAllBody, hpop, hrun1, hk, hrun3], Or.inr ?_, hheap3⟩
+        exact ⟨x, xs, rs1, rs2, s1, s2, rfl, rfl, hperm1, hmin, hheap1, hok1, by simp [hk]; exact hok3⟩
+
 end Golib.C04
